@@ -63,6 +63,12 @@ def run(f):
         return b"", exc_class(x)
 
 
+def kc(key, r):
+    """the key in one of the documented containers (the value must not depend on it)"""
+    k = r.randrange(4)
+    return key if k < 2 else bytearray(key) if k == 2 else memoryview(bytes(key))
+
+
 def feed(o, msg, r):
     """absorb msg through update(), whole or in two pieces (the value must not depend on it; C09 examines segmentation)"""
     if len(msg) > 1 and r.random() < 0.3:
@@ -223,7 +229,17 @@ def fam_tuplehash():
                 custom = rb(r, r.choice([0, 0, 1, 12, 255, 256, 300]))
 
                 def go():
-                    o = mod.new(digest_bytes=nb, custom=custom)
+                    v = r.randrange(4)
+                    if v == 0 and nb == 64:
+                        o = mod.new(custom=custom)                                # documented default: 64 bytes
+                    elif v == 1:
+                        o = mod.new(digest_bits=8 * nb, custom=custom)
+                    elif v == 2:
+                        parent = mod.new(digest_bytes=nb, custom=b"parent")
+                        parent.update(b"absorbed by the parent")
+                        o = parent.new(custom=custom)                             # inherits the digest size
+                    else:
+                        o = mod.new(digest_bytes=nb, custom=custom)
                     if items and r.random() < 0.5:
                         o.update(*items)
                     else:
@@ -252,7 +268,17 @@ def fam_kmac():
             combos = pick(r, [(k, m, o, c) for k in klens for m in mlens for o in olens for c in clens], 300)
         for k, m, o, c in combos:
             key, msg, custom, msg2 = rb(r, k), rb(r, m), rb(r, c), rb(r, m + 1)
-            mk = lambda data: feed(mod.new(key=key, mac_len=o, custom=custom), data, r)  # noqa: E731
+            def mk(data):
+                v = r.randrange(4)
+                if v == 0 and o == 64:
+                    return feed(mod.new(key=kc(key, r), custom=custom), data, r)          # documented default: 64 bytes
+                if v == 1:
+                    parent = mod.new(key=bytes(kmin), mac_len=o)
+                    parent.update(b"absorbed by the parent")
+                    return feed(parent.new(key=key, custom=custom), data, r)              # inherits mac_len
+                if v == 2 and data:
+                    return mod.new(key=key, mac_len=o, custom=custom, data=data)
+                return feed(mod.new(key=kc(key, r), mac_len=o, custom=custom), data, r)
             out, exc = run(lambda: mk(msg).digest())
             offers = []
             if exc == "none":
@@ -279,7 +305,16 @@ def fam_blake2():
             def mk(data):
                 if data and r.random() < 0.3:
                     return mod.new(data=data, digest_bytes=n, key=key)
-                return feed(mod.new(digest_bytes=n, key=key) if r.random() < 0.5 else mod.new(digest_bits=8 * n, key=key), data, r)
+                # equivalent documented spellings of the same parameters: digest_bytes, digest_bits, the default size (omitted), and the
+                # instance method new() of a used object (inherits the digest size, takes the key anew)
+                v = r.randrange(5)
+                if v == 0 and n == nmax:
+                    return feed(mod.new(key=kc(key, r)), data, r)
+                if v == 1:
+                    parent = mod.new(digest_bytes=n, key=b"another key")
+                    parent.update(b"absorbed by the parent")
+                    return feed(parent.new(key=key), data, r)
+                return feed(mod.new(digest_bytes=n, key=kc(key, r)) if v < 3 else mod.new(digest_bits=8 * n, key=key), data, r)
             out, exc = run(lambda: mk(msg).digest())
             offers = []
             if exc == "none":
